@@ -25,9 +25,7 @@ use futures::{
 };
 use std::{collections::VecDeque, sync::Arc, time::SystemTime};
 
-use super::error::{InternalError, QuotaExceeded};
-
-const ERRMSG_HANDLE_DROPPED: &str = "Unable to complete async operation.";
+use super::error::QuotaExceeded;
 
 struct Session {
     awaiting_ack: VecDeque<(usize, oneshot::Sender<Result<RxPacket, MqttError>>)>,
@@ -119,22 +117,19 @@ where
         match msg {
             ContextMessage::FireAndForget(msg) => {
                 if let Err(err) = Self::validate_packet_size(connection, msg.packet.as_ref()) {
-                    msg.response_channel
-                        .send(Err(err))
-                        .map_err(|_| InternalError::from(ERRMSG_HANDLE_DROPPED))?;
+                    // The caller may have dropped the future: nobody is waiting for the result then.
+                    let _ = msg.response_channel.send(Err(err));
                     return Ok(());
                 }
 
                 tx.write(msg.packet.freeze().as_ref()).await?;
-                msg.response_channel
-                    .send(Ok(()))
-                    .map_err(|_| InternalError::from(ERRMSG_HANDLE_DROPPED))?;
+                // The caller may have dropped the future: nobody is waiting for the result then.
+                let _ = msg.response_channel.send(Ok(()));
             }
             ContextMessage::AwaitAck(mut msg) => {
                 if let Err(err) = Self::validate_packet_size(connection, msg.packet.as_ref()) {
-                    msg.response_channel
-                        .send(Err(err))
-                        .map_err(|_| InternalError::from(ERRMSG_HANDLE_DROPPED))?;
+                    // The caller may have dropped the future: nobody is waiting for the result then.
+                    let _ = msg.response_channel.send(Err(err));
                     return Ok(());
                 }
 
@@ -142,9 +137,8 @@ where
 
                 if packet_id == PublishTx::PACKET_ID {
                     if connection.send_quota == 0 {
-                        msg.response_channel
-                            .send(Err(QuotaExceeded.into()))
-                            .map_err(|_| InternalError::from(ERRMSG_HANDLE_DROPPED))?;
+                        // The caller may have dropped the future: nobody is waiting for the result then.
+                        let _ = msg.response_channel.send(Err(QuotaExceeded.into()));
                         return Ok(());
                     }
 
@@ -180,9 +174,8 @@ where
             }
             ContextMessage::Subscribe(msg) => {
                 if let Err(err) = Self::validate_packet_size(connection, msg.packet.as_ref()) {
-                    msg.response_channel
-                        .send(Err(err))
-                        .map_err(|_| InternalError::from(ERRMSG_HANDLE_DROPPED))?;
+                    // The caller may have dropped the future: nobody is waiting for the result then.
+                    let _ = msg.response_channel.send(Err(err));
                     return Ok(());
                 }
 
@@ -299,9 +292,8 @@ where
                     utils::linear_search_by_key(&session.awaiting_ack, action_id)
                         .and_then(|pos| session.awaiting_ack.remove(pos))
                 {
-                    sender
-                        .send(Ok(rx_packet))
-                        .map_err(|_| InternalError::from(ERRMSG_HANDLE_DROPPED))?;
+                    // The caller may have dropped the future: nobody is waiting for the result then.
+                    let _ = sender.send(Ok(rx_packet));
                 }
             }
             RxPacket::Pubcomp(pubcomp) => {
@@ -319,9 +311,8 @@ where
                     utils::linear_search_by_key(&session.awaiting_ack, action_id)
                         .and_then(|pos| session.awaiting_ack.remove(pos))
                 {
-                    sender
-                        .send(Ok(rx_packet))
-                        .map_err(|_| InternalError::from(ERRMSG_HANDLE_DROPPED))?;
+                    // The caller may have dropped the future: nobody is waiting for the result then.
+                    let _ = sender.send(Ok(rx_packet));
                 }
             }
             RxPacket::Pubrec(pubrec) => {
@@ -340,9 +331,25 @@ where
                     utils::linear_search_by_key(&session.awaiting_ack, action_id)
                         .and_then(|pos| session.awaiting_ack.remove(pos))
                 {
-                    sender
-                        .send(Ok(rx_packet))
-                        .map_err(|_| InternalError::from(ERRMSG_HANDLE_DROPPED))?;
+                    // The caller may have dropped the future after the PUBLISH was sent. The broker
+                    // still expects the PUBREL, and only the PUBCOMP returns the send quota slot,
+                    // so the exchange is completed on the caller's behalf.
+                    if let Err(Ok(RxPacket::Pubrec(pubrec))) = sender.send(Ok(rx_packet)) {
+                        if (pubrec.reason as u8) < 0x80 {
+                            let mut builder = PubrelTxBuilder::default();
+                            builder.packet_identifier(pubrec.packet_identifier);
+                            let pubrel = builder.build().unwrap();
+
+                            let mut buf = BytesMut::with_capacity(pubrel.packet_len());
+                            pubrel.encode(&mut buf);
+
+                            tx.write(buf.as_ref()).await?;
+                            session.retrasmit_queue.push_back((
+                                utils::tx_action_id(&TxPacket::Pubrel(pubrel)),
+                                buf.freeze(),
+                            ));
+                        }
+                    }
                 }
             }
             RxPacket::Pubrel(pubrel) => {
@@ -359,9 +366,8 @@ where
                     utils::linear_search_by_key(&session.awaiting_ack, action_id)
                         .and_then(|pos| session.awaiting_ack.remove(pos))
                 {
-                    sender
-                        .send(Ok(other))
-                        .map_err(|_| InternalError::from(ERRMSG_HANDLE_DROPPED))?;
+                    // The caller may have dropped the future: nobody is waiting for the result then.
+                    let _ = sender.send(Ok(other));
                 }
             }
         }
